@@ -339,6 +339,43 @@ pub mod verif_clock {
     }
 }
 
+/// Verification hook (add-only, compiled only with feature `verif-hooks`)
+///
+/// Scheduling points: places where the terminal thread is about to make a system call on
+/// a descriptor it shares with other threads (waker socket, signal pipe). A simulator that
+/// decides the interleaving of threads installs a callback and lets the other threads run
+/// there. Without a callback, and without the feature, nothing happens.
+#[cfg(feature = "verif-hooks")]
+pub mod verif_yield {
+    use std::cell::RefCell;
+
+    type Callback = Box<dyn FnMut(&'static str)>;
+
+    thread_local! {
+        static CALLBACK: RefCell<Option<Callback>> = const { RefCell::new(None) };
+    }
+
+    /// Install (or remove) scheduling point callback of the current thread
+    pub fn set(callback: Option<Callback>) {
+        CALLBACK.with(|slot| *slot.borrow_mut() = callback);
+    }
+
+    /// Scheduling point
+    pub fn point(name: &'static str) {
+        // callback is taken out for the duration of the call, so it can not be re-entered
+        let callback = CALLBACK.with(|slot| slot.borrow_mut().take());
+        if let Some(mut callback) = callback {
+            callback(name);
+            CALLBACK.with(|slot| {
+                let mut slot = slot.borrow_mut();
+                if slot.is_none() {
+                    *slot = Some(callback);
+                }
+            });
+        }
+    }
+}
+
 #[cfg(test)]
 mod tests {
     use super::IOQueue;
